@@ -259,3 +259,14 @@ def replay(w, rec):
         run_model(w["lp"], w["method"], rec, random.Random(0), seams)
     finally:
         seams.uninstall()
+
+
+# workloads added after the seventh round of seeded changes (DESIGN section 9): part of the rule of this check
+_RULE_ADDENDUM = 'directed sweep of every vector / block spelling x sense as constraint and as bare objective'
+_info_base = info
+
+
+def info(tier):  # noqa: F811
+    d = _info_base(tier)
+    d["rule"] = d["rule"] + "; " + _RULE_ADDENDUM
+    return d
